@@ -27,8 +27,8 @@ func (c *octx) twins(t *testing.T, cfg simrt.Config) *eng.Violation {
 			return nil
 		}
 		c.out.Probes["flattened_twin_compared"]++
-		res, _ := execScn(t, flat, simrt.Config{Seed: cfg.Seed, Replay: true, Tape: c.res.Tape})
-		return c.sameLog("nested-differs-from-flat", "the equivalent flattened flow", res)
+		_, fobs := execScn(t, flat, simrt.Config{Seed: cfg.Seed, Replay: true, Tape: c.res.Tape})
+		return c.sameCallbacks("nested-differs-from-flat", "the equivalent flattened flow", fobs)
 	}
 	return nil
 }
@@ -46,6 +46,34 @@ func (c *octx) sameLog(clause, what string, other *simrt.Result) *eng.Violation 
 		if x != y {
 			return c.viol(clause, "same seed, same schedule: event %d is %+v as configured, but %+v with %s", i+1, x, y, what)
 		}
+	}
+	return nil
+}
+
+// sameCallbacks compares what the user's callbacks saw (order in the main
+// lane, per-item traces, arguments), the outcome of every run and the store;
+// scheduling details (task ids, sequence numbers) are left out because the
+// nested arrangement has extra scheduling points of its own.
+func (c *octx) sameCallbacks(clause, what string, other *Obs) *eng.Violation {
+	if len(other.Runs) != len(c.obs.Runs) {
+		return c.viol(clause, "%d runs here, %d with %s", len(c.obs.Runs), len(other.Runs), what)
+	}
+	for i, or := range c.obs.Runs {
+		tr := other.Runs[i]
+		if d := diffSeq(projObs(or.Main, projFull, false), projObs(tr.Main, projFull, false)); d != "" {
+			return c.viol(clause, "run %d: callbacks differ from %s (shown as 'the model'): %s", i, what, d)
+		}
+		for k, lane := range or.Lanes {
+			if d := diffSeq(projObs(lane, projFull, false), projObs(tr.Lanes[k], projFull, false)); d != "" {
+				return c.viol(clause, "run %d, batch item %+v: callbacks differ from %s: %s", i, k, what, d)
+			}
+		}
+		if or.End == nil || tr.End == nil || or.End.S1 != tr.End.S1 || or.End.S2 != tr.End.S2 {
+			return c.viol(clause, "run %d: outcome differs from %s: %+v vs %+v", i, what, or.End, tr.End)
+		}
+	}
+	if c.obs.Store != other.Store {
+		return c.viol(clause, "store contents {%s} differ from %s {%s}", c.obs.Store, what, other.Store)
 	}
 	return nil
 }
